@@ -291,12 +291,36 @@ pub fn gen_crash(t: &mut Tape, site: u64) -> Scenario {
     p.max_steps = 6;
     p.w_loop = 0;
     p.w_zip = 2;
-    let mut sc = gen_pipe(t, p);
+    // a fifth of the jobs is a single block (source, element-wise operators, a sink without
+    // repartition): nothing downstream notices the failure, only the join of the worker does
+    let mut sc = if t.draw(5) == 4 {
+        let mut g = Gen::new(t, p);
+        let n = [3usize, 20, 200][g.t.draw(3) as usize];
+        let par = g.t.draw(4) != 0;
+        let mut s = g.add_source(par, n, 7);
+        for _ in 0..g.t.draw(4) {
+            let op = match g.t.draw(4) {
+                0 => UnOp::Map(MapFn::Add(1)),
+                1 => UnOp::Filter(PredFn::IdBit(1)),
+                2 => UnOp::FlatMap(FlatFn::Copies(2)),
+                _ => UnOp::KeyByDrop,
+            };
+            s = g.un(s, op);
+        }
+        g.attrs[s].take();
+        let k = [SinkKind::ForEach, SinkKind::CollectChannelParallel][g.t.draw(2) as usize];
+        g.steps.push(Step::Sink(s, k));
+        g.finish()
+    } else {
+        gen_pipe(t, p)
+    };
     // site index -> (probe, replica ordinal, position): all operators x replicas x {first, 4th, end}
     sc.crash = Some(CrashPlan {
         probe: (site / 9) as u32,
         replica_ordinal: ((site / 3) % 3) as u32,
         nth: [0u32, 3, 1_000_000][(site % 3) as usize],
+        // string and non-string panic payloads
+        payload: (((site / 9) + (site % 3)) % 3) as u8,
     });
     sc
 }
